@@ -239,7 +239,9 @@ class World:
 
     def kwargs(self):
         cfg = self.cfg
-        kw = dict(SCHEDULES[cfg["schedule"]])
+        from harness.smc_loop import schedule_kwargs
+
+        kw = schedule_kwargs(cfg["schedule"], self.N)
         if cfg.get("n_final"):
             kw["n_final_samples"] = self.N + 1
         if cfg["sampler"] == "MiniPCNSMC":
@@ -608,7 +610,13 @@ def _replay_resume(cex, model, props, bad, tmp):
                 res.run(resume_from=src, checkpoint_callback=res.callback, checkpoint_every=1)
             bad += res.bad
             tag = f"[resume@{k}/{route}]"
-            compare(ref, res, bad, tag)
+            if "C06" in props:
+                if res.error is not None or res.final is None:
+                    bad.append(f"C06{tag}: the resumed run did not finish: {res.error}")
+                elif ck["n_acc"] + len(res.kernel_inputs) != len(ref.kernel_inputs):
+                    bad.append(f"C06{tag}: the run resumed after {ck['n_acc']} kernel calls moved the population {len(res.kernel_inputs)} more times; the uninterrupted run needs {len(ref.kernel_inputs)}")
+            if "C11" in props:
+                compare(ref, res, bad, tag)
             r = oracle_run(res, props - {"C17"}, bad, tag=tag)
             info["resumed"].append({"checkpoint": k, "iteration": ck["iteration"], "route": route, "betas": r.get("betas")})
     if "file" in routes:
@@ -689,7 +697,9 @@ def _aspire_world(cex, model, path, fail_at=None, resume=False):
     A.get_flow_wrapper = lambda backend="zuko", flow_matching=False: (PFlow, np)
     World.current = w
     cfg = cex["cfg"]
-    kw = dict(SCHEDULES[cfg["schedule"]])
+    from harness.smc_loop import schedule_kwargs
+
+    kw = schedule_kwargs(cfg["schedule"], w.N)
     kw["sampler_kwargs"] = {"n_steps": 1}
     if cfg.get("n_final"):
         kw["n_final_samples"] = w.N + 1
@@ -810,7 +820,9 @@ def _replay_rng_inner(cex, model, props, bad, cfg, g, constructed):
             xp=np,
         )
         World.current = w
-        kw = dict(SCHEDULES[cfg["schedule"]])
+        from harness.smc_loop import schedule_kwargs
+
+        kw = schedule_kwargs(cfg["schedule"], w.N)
         kw["sampler_kwargs"] = {"n_steps": 1}
         with np.errstate(all="ignore"):
             a.sample_posterior(n_samples=w.N, sampler="smc", rng=g, preconditioning="none", **kw)
